@@ -31,9 +31,9 @@ func init() {
 	rig.Register(&rig.Check{
 		ID:    "C01",
 		Floor: 40,
-		Rule: "case = (feature type T, prior state pristine|after a random prefix of subscribes, binds and data updates, sending peer 0..2); its cells are the request matrix classifier x function x ack (requested, omitted, explicitly false) x destination kind (NodeManagement, server, client, a special-role data feature, unknown in five address forms, foreign device part), walked in a per-case shuffled order, a fifth of the datagrams carrying the cmd twice, a third of the reply/result cells referencing a request of the stack that is really outstanding, " +
+		Rule: "case = (feature type T, prior state pristine|after a random prefix of subscribes, binds and data updates, sending peer 0..2); its cells are the request matrix classifier x function x ack (requested, omitted, explicitly false) x destination kind (NodeManagement, server, client, a special-role data feature, unknown in five address forms, foreign device part), walked in a per-case shuffled order, a fifth of the datagrams carrying the cmd twice, a third of the reply/result cells referencing a request of the stack that is really outstanding, half of the data-feature cells dressed in one of six legal cmd envelopes (optional function element naming the payload or empty, partial / delete filter with or without selector or elements), " +
 			"enumerated completely in every case of both tiers (quick: two rounds over all feature types, prior states and senders, the second sending from the nested entity [1,1]; thorough: eight rounds with fresh prefixes and payloads). A case is non-trivial if at least one reply, one success result and one error result were observed and judged; " +
-			"distinct = distinct (T, prior state, sender, set of response classes seen).",
+			"distinct = distinct (T, prior state, sender, set of response classes seen). Part local-tree: case = (T, sender, a history of 7 (thorough 12) changes of the local tree: entities added, removed sequentially / inside the destination lookup of an inbound datagram / concurrently with deliveries on all connections, added again under the same address with another role layout and other data, features added after having been asked for in vain), every request kind sent to feature numbers 1..3 of the changed address, of a neighbour and of the stable entity after every change; non-trivial if a reply, a success and an error result were judged and at least one change overlapped a delivery.",
 		Assumptions: []string{
 			"message handling is synchronous in HandleSpineMesssage when no approval callback is registered, so the trace is complete when the call returns",
 			"acceptance is predicted only where the statement leaves no doubt; elsewhere the shape (exactly one of the allowed response sets, never both, never twice) is asserted",
@@ -41,6 +41,8 @@ func init() {
 			"datagrams WITHOUT the request's reference are predicted from harness state on every tap: at most one re-read of the same function (addressed feature -> request source) after a notify answered with an error; at most one notify per reference subscriber of the written feature after an accepted write; at most one subscription call and one use-case read (local NodeManagement -> sender's NodeManagement) after an accepted discovery reply. Anything else is a violation of 'no more' (their presence is other properties' subject and not demanded here)",
 			"a datagram carrying the same cmd twice is one request: exactly one response set, as for the single cmd",
 			"a destination naming another device than the local one (a connected peer's address or an unknown one) is a destination feature that does not exist here: one error result",
+			"the optional cmd elements function and filter do not select the row of the statement's table: a read of a server or special feature gets its one reply whether the function element is absent, names the payload or is empty (as senders write it next to a partial filter), and an empty update of a list restricted to 'partial' is as acceptable as the bare empty payload; the content of a reply to a read carrying a selector or elements is not compared",
+			"local-tree: a datagram in flight while the application adds or removes the addressed entity may be served by the state before or after the change (exactly one of the two response sets); a datagram sent after the change has returned is judged by the state after it. The window inside the destination lookup is opened through the public api.EntityLocalInterface (an entity embedding *spine.EntityLocal); no verdict depends on the window having been reached",
 			"the heartbeat timer of the DeviceDiagnosis world is stopped by the harness (it would write data and notify at wall-clock times); the expectation for reply content is the harness's own record of SetData calls and accepted full writes, after one JSON round trip",
 		},
 		Parts: []rig.Part{{
@@ -59,6 +61,13 @@ func init() {
 			Name:  "odd-filter",
 			Cases: func(t rig.Tier) int { return len(types) * map[rig.Tier]int{rig.Quick: 1, rig.Thorough: 6}[t] },
 			Run:   c01OddFilter,
+		}, {
+			// the destination as a history: entities and features added, removed and added again by the application,
+			// sequentially, inside the destination lookup of an inbound datagram, and concurrently with deliveries (c01_tree.go)
+			Name:  "local-tree",
+			Cases: func(t rig.Tier) int { return len(types) * map[rig.Tier]int{rig.Quick: 2, rig.Thorough: 8}[t] },
+			Run:   c01Tree,
+			Quiet: 150 * time.Second,
 		}},
 	})
 }
@@ -204,6 +213,7 @@ type c01Cell struct {
 	form  int  // unknown: which address form; foreign: which device name
 	two   bool // the datagram carries the cmd twice
 	real  bool // reply/result: the reference is a request of the stack that is really outstanding
+	env   int  // which optional cmd elements (function, filter) accompany the payload: index into c01Envelopes
 }
 
 var c01UnknownForms = []string{"[1]/9 unknown feature", "[9]/1 unknown entity", "[1,9]/1 unknown nested entity", "[1,1]/1 existing feature number under an entity that does not exist", "[0]/9 unknown feature of the device information entity"}
@@ -221,6 +231,9 @@ func (x c01Cell) String() string {
 	}
 	if x.real {
 		s += " real-reference"
+	}
+	if x.env != 0 {
+		s += " envelope=" + c01Envelopes[x.env]
 	}
 	return s
 }
@@ -406,6 +419,7 @@ func c01Case(c *rig.Ctx) {
 	}
 	// collect takes every tap; it returns the classification of the sender's tap, reports referencing datagrams on
 	// other taps and judges every datagram without the reference against the allowed ones
+	foreignDest := false
 	collect := func(id string, reqCl model.CmdClassifierType, mc model.MsgCounterType, allowed []c01Allowed, judgeUnref bool) rig.Resp {
 		var res rig.Resp
 		for qi, q := range w.Peers {
@@ -434,7 +448,11 @@ func c01Case(c *rig.Ctx) {
 						break
 					}
 				}
-				if !ok && judgeUnref {
+				if !ok && foreignDest {
+					// the destination names another device: whatever the request caused beyond its one error result is the
+					// local feature of these numbers having served it (one signature for that whole class)
+					c.Violate("foreign-device-destination/not-exactly-one-error", "%s\n a datagram that does not answer the request was written to peer %d although the destination names another device:\n %s", id, qi, rig.JS(d))
+				} else if !ok && judgeUnref {
 					where := "sender"
 					if q != p {
 						where = "other-peer"
@@ -538,6 +556,10 @@ func c01Case(c *rig.Ctx) {
 			cell.real = true
 			ref = util.Ptr(cw.pending[sender][r.Intn(len(cw.pending[sender]))])
 		}
+		// the optional cmd elements next to the payload
+		if cell.env = c01PickEnvelope(r, cell); cell.env != 0 {
+			cell.env = c01ApplyEnvelope(r, &cmd, fn, cell.env)
+		}
 		// well-formed bodies for the node management calls and announcements
 		class, want := "", []string(nil)
 		okIfAck := "reply=0 ok=0 err=0"
@@ -624,8 +646,15 @@ func c01Case(c *rig.Ctx) {
 				class, want = "write-authorised(count)", []string{okIfAck, oneErr}
 			case cell.cl == model.CmdClassifierTypeWrite:
 				class, want = "write-unauthorised->error", []string{oneErr}
-			case (cell.cl == model.CmdClassifierTypeReply || cell.cl == model.CmdClassifierTypeNotify) && cell.dest == "client" && inT && !cell.gen:
+			case (cell.cl == model.CmdClassifierTypeReply || cell.cl == model.CmdClassifierTypeNotify) && cell.dest == "client" && inT && !cell.gen && !c01EnvFiltered(cell.env):
 				class, want = "reply/notify-own-type->accepted", []string{okIfAck}
+			case (cell.cl == model.CmdClassifierTypeReply || cell.cl == model.CmdClassifierTypeNotify) && cell.dest == "client" && inT && !cell.gen && !c01EnvSelects(cell.env) && rig.ListByFn(fn) != nil:
+				// an update of a list restricted to "partial" that names no item changes nothing and is as acceptable as the
+				// bare empty payload, whether the optional function element is empty or names the list
+				class, want = "reply/notify-own-type-partial-list->accepted", []string{okIfAck}
+			case (cell.cl == model.CmdClassifierTypeReply || cell.cl == model.CmdClassifierTypeNotify) && cell.dest == "client" && inT && !cell.gen:
+				// what a filter makes of an empty payload is the data layer's business (C02): count and addressing only
+				class, want = "reply/notify-own-type-filtered(shape)", []string{okIfAck, oneErr}
 			case isCall && cell.dest != "nm":
 				class, want = "call-on-data-feature->error", []string{oneErr}
 			case isCall && (cmd.NodeManagementSubscriptionData != nil || cmd.NodeManagementBindingData != nil):
@@ -682,10 +711,16 @@ func c01Case(c *rig.Ctx) {
 			}
 		}
 		// a foreign-device destination that was served like a local one is reported below, once; what else it caused is not judged again
-		res := collect(id, cell.cl, mc, allowed, !(cell.dest == "foreign" && !match))
+		foreignDest = cell.dest == "foreign"
+		res := collect(id, cell.cl, mc, allowed, !foreignDest)
+		foreignDest = false
 		c.Events(int64(len(res.All)))
 		classesSeen[class] = true
 		c.Count("class:"+class, 1)
+		c.Count("envelope:"+c01Envelopes[cell.env], 1)
+		if cell.env != 0 {
+			c.Count("envelope-by-classifier:"+string(cell.cl)+":"+c01Envelopes[cell.env], 1)
+		}
 		if cell.two {
 			c.Count("datagrams-with-the-cmd-twice", 1)
 		}
@@ -752,8 +787,13 @@ func c01Case(c *rig.Ctx) {
 		if class == "write-authorised(count)" && match && res.Errors == 0 {
 			// accepted: a write without filters replaces the data
 			cd, _ := cmd.Data()
-			cw.rec["srv|"+string(fn)] = c01RT(cell.fn, cd.Value)
-			delete(cw.unknownRec, "srv|"+string(fn))
+			if c01EnvFiltered(cell.env) {
+				// a filtered write merges into / deletes from the data: what the function holds afterwards is C02's subject
+				cw.unknownRec["srv|"+string(fn)] = true
+			} else {
+				cw.rec["srv|"+string(fn)] = c01RT(cell.fn, cd.Value)
+				delete(cw.unknownRec, "srv|"+string(fn))
+			}
 			// and a read right after it returns exactly that
 			mc3 := send(model.CmdClassifierTypeRead, src, srvAddr, false, false, false, nil, rig.CmdFor(fn, reflect.New(cell.fn.T).Interface()))
 			id3 := id + " (read after the accepted write)"
@@ -792,6 +832,11 @@ func c01Case(c *rig.Ctx) {
 		if res.Replies > 0 {
 			switch class {
 			case "read-server->reply", "read-special->reply":
+				if c01EnvSelects(cell.env) {
+					// a read restricted to selected items / elements: the function of the reply is judged, not its content
+					c.Count("not-judged:reply-content-of-a-read-with-selector-or-elements", 1)
+					which = ""
+				}
 				judgeReply(id, res, which, cell.fn)
 			case "read-nodemanagement->reply":
 				judgeReply(id, res, "", cell.fn)
